@@ -21,7 +21,7 @@ Proof.
   - destruct (bcmp v x) eqn:E; cbn [fst snd sum_len fold_right].
     + fold (sum_len l). lia.
     + fold (sum_len l). lia.
-    + destruct (roi v l) as [r o] eqn:Er. cbn [fst snd sum_len fold_right] in *. fold (sum_len r). fold (sum_len l). lia.
+    + revert IH. destruct (roi v l) as [r o]. intros IH. cbn [fst snd sum_len fold_right] in *. fold (sum_len r). fold (sum_len l). lia.
 Qed.
 
 Lemma sdel_sum k l :
@@ -32,7 +32,7 @@ Proof.
   - destruct (bcmp k x) eqn:E; cbn [fst snd sum_len fold_right].
     + fold (sum_len l). lia.
     + fold (sum_len l). lia.
-    + destruct (sdel k l) as [r o] eqn:Er. cbn [fst snd sum_len fold_right] in *. fold (sum_len r). fold (sum_len l). lia.
+    + revert IH. destruct (sdel k l) as [r o]. intros IH. cbn [fst snd sum_len fold_right] in *. fold (sum_len r). fold (sum_len l). lia.
 Qed.
 
 Lemma sum_len_app a b : sum_len (a ++ b) = sum_len a + sum_len b.
